@@ -300,5 +300,7 @@ def run(ctx):
     global_setters(fx, res, "R7.7", ["args_override_self"])
     pg = fx.body("clap_builder::builder::command::Command::_propagate_subcommand")
     wrote = dict((f, expr(pg, s_["rv"]["op"])) for f in ("settings", "g_settings") for i, s_ in writes_field(pg, f) if s_["rv"]["k"] == "use")
-    res.check(wrote.get("settings") == "bitor(sc.settings,self.g_settings)" and wrote.get("g_settings") == "bitor(sc.g_settings,self.g_settings)", "R7.7", "global-settings-handed-down", pg.where(),
+    import accessors
+    hd_ = accessors.g_settings_handed_down(fx)
+    res.check(hd_["settings"][0] and hd_["g_settings"][0], "R7.7", "global-settings-handed-down", pg.where(),
               "global settings handed down at every depth", "_propagate_subcommand writes %s" % wrote)
